@@ -35,6 +35,10 @@ pub enum Expr {
     Join(Vec<u32>),
     /// reads inside an unordered callee group; result = element-wise sum
     Unord(Vec<u32>),
+    /// `select!`-like: the read of the node runs alongside the evaluation of
+    /// the expression and is dropped, wherever it is, when the expression is
+    /// done (an executor abandoning a sub-query); result = the expression
+    Race(u32, Box<Expr>),
 }
 
 #[derive(Clone, Debug, PartialEq, Eq, Hash, Serialize, Deserialize)]
@@ -83,6 +87,10 @@ fn collect_reads(e: &Expr, out: &mut Vec<u32>) {
             collect_reads(f, out);
         }
         Expr::Join(v) | Expr::Unord(v) => out.extend(v.iter().copied()),
+        Expr::Race(n, a) => {
+            out.push(*n);
+            collect_reads(a, out);
+        }
     }
 }
 
@@ -159,6 +167,25 @@ pub fn eval<'a, R: Reader>(e: &'a Expr, r: &'a R) -> BoxFut<'a, Result<Val, Abor
             }
             Expr::Join(ns) => sum_all(&r.read_join(ns).await?),
             Expr::Unord(ns) => sum_all(&r.read_unord(ns).await?),
+            Expr::Race(n, inner) => {
+                let mut side = r.read(*n);
+                let mut main = eval(inner, r);
+                let mut side_done = false;
+                std::future::poll_fn(|cx| {
+                    // biased towards the expression; the side read is only
+                    // driven while the expression is pending
+                    if let std::task::Poll::Ready(v) = main.as_mut().poll(cx) {
+                        return std::task::Poll::Ready(v);
+                    }
+                    if !side_done && side.as_mut().poll(cx).is_ready() {
+                        side_done = true;
+                    }
+                    std::task::Poll::Pending
+                })
+                .await?
+                // `side` is dropped here; if it had not completed, the engine
+                // sees an abandoned sub-query
+            }
         })
     })
 }
